@@ -1,6 +1,7 @@
 package coqprint
 
 import (
+	"sort"
 	"strings"
 
 	"github.com/vektah/gqlparser/v2/ast"
@@ -64,6 +65,102 @@ func SelectionSet(ss ast.SelectionSet) string {
 				items = append(items, "SInline "+CoqStr(s.Definition.TypeCondition)+" "+dirs(s.Directives)+" "+SelectionSet(s.Definition.SelectionSet))
 			}
 		}
+	}
+	return "[" + strings.Join(items, "; ") + "]"
+}
+
+// ---- Plan.Header: the same selection set with the validator's annotations ----
+
+// TValue renders an ast.Value as Plan.Header.tvalue; names collects the type names the annotations mention.
+func TValue(v *ast.Value, names map[string]bool) string {
+	if v == nil {
+		return "TLeaf"
+	}
+	if len(v.Children) > 0 {
+		def := "None"
+		if v.Definition != nil {
+			def = "(Some " + CoqStr(v.Definition.Name) + ")"
+			names[v.Definition.Name] = true
+		}
+		items := make([]string, len(v.Children))
+		for i, c := range v.Children {
+			items[i] = "(" + CoqStr(c.Name) + ", " + TValue(c.Value, names) + ")"
+		}
+		return "(TKids " + def + " [" + strings.Join(items, "; ") + "])"
+	}
+	if v.Kind == ast.Variable {
+		exp := ""
+		if v.ExpectedType != nil {
+			exp = v.ExpectedType.String()
+		}
+		return "(TVar " + CoqStr(v.Raw) + " " + CoqStr(exp) + ")"
+	}
+	return "TLeaf"
+}
+
+// TSelectionSet renders an ast.SelectionSet as a list of Plan.Header.tsel.
+func TSelectionSet(ss ast.SelectionSet, names map[string]bool) string {
+	var items []string
+	for _, s := range ss {
+		switch s := s.(type) {
+		case *ast.Field:
+			fdef := "None"
+			if s.Definition != nil && s.Definition.Arguments != nil {
+				ads := make([]string, len(s.Definition.Arguments))
+				for i, ad := range s.Definition.Arguments {
+					ads[i] = "(" + CoqStr(ad.Name) + ", (" + CoqStr(ad.Type.String()) + ", " + CoqStr(ad.Type.Name()) + "))"
+					names[ad.Type.Name()] = true
+				}
+				fdef = "(Some [" + strings.Join(ads, "; ") + "])"
+			}
+			as := make([]string, len(s.Arguments))
+			for i, a := range s.Arguments {
+				as[i] = "(" + CoqStr(a.Name) + ", " + TValue(a.Value, names) + ")"
+			}
+			items = append(items, "TField "+fdef+" ["+strings.Join(as, "; ")+"] "+TSelectionSet(s.SelectionSet, names))
+		case *ast.InlineFragment:
+			items = append(items, "TInline "+TSelectionSet(s.SelectionSet, names))
+		}
+	}
+	return "[" + strings.Join(items, "; ") + "]"
+}
+
+// HeaderTypes renders the named types (with the types their fields mention, transitively) as Plan.Header.types.
+func HeaderTypes(schema *ast.Schema, names map[string]bool) string {
+	var order []string
+	seen := map[string]bool{}
+	var add func(n string)
+	add = func(n string) {
+		d := schema.Types[n]
+		if d == nil || seen[n] {
+			return
+		}
+		seen[n] = true
+		order = append(order, n)
+		if d.Kind == ast.InputObject {
+			for _, f := range d.Fields {
+				add(f.Type.Name())
+			}
+		}
+	}
+	var ns []string
+	for n := range names {
+		ns = append(ns, n)
+	}
+	sort.Strings(ns)
+	for _, n := range ns {
+		add(n)
+	}
+	items := make([]string, len(order))
+	for i, n := range order {
+		d := schema.Types[n]
+		var fs []string
+		if d.Kind == ast.InputObject {
+			for _, f := range d.Fields {
+				fs = append(fs, "("+CoqStr(f.Name)+", "+CoqStr(f.Type.String())+")")
+			}
+		}
+		items[i] = "(" + CoqStr(n) + ", [" + strings.Join(fs, "; ") + "])"
 	}
 	return "[" + strings.Join(items, "; ") + "]"
 }
